@@ -19,6 +19,7 @@ patch = os.path.join(dst, "patch.diff")
 # fresh scratch worktree at the CURRENT /repo HEAD, so that the verdict is about this change alone
 wt = f"/tmp/seval_{name}"
 run(["git", "-C", "/repo", "worktree", "remove", "--force", wt])
+shutil.rmtree(wt, ignore_errors=True); run(["git", "-C", "/repo", "worktree", "prune"])
 r = run(["git", "-C", "/repo", "worktree", "add", "--detach", wt, "HEAD"])
 assert os.path.isdir(wt), r.stdout
 env = dict(os.environ, PYTHONPATH=f"{wt}/src")
@@ -38,7 +39,7 @@ for l in lines:
         rp = l.split("replay=")[1].split()[0]
         if os.path.exists(os.path.join("/verif", rp)):
             replay = json.load(open(os.path.join("/verif", rp)))
-run(["git", "-C", "/repo", "worktree", "remove", "--force", wt])
+run(["git", "-C", "/repo", "worktree", "remove", "--force", wt]); shutil.rmtree(wt, ignore_errors=True)
 meta = {
     "repo_head": head,
     "property": pid, "seed_name": name,
